@@ -562,8 +562,9 @@ async def _drive_pool(case: dict[str, Any], out: dict[str, Any]) -> None:
             notified.append(1)
 
     counter_task = asyncio.create_task(_count())
-    pool = ComponentPoolStatusTracker({10 + b for b in range(nb)}, ch.new_sender(), timedelta(seconds=MAXAGE),
-                                      timedelta(seconds=MAXBLOCK), _Tracker)
+    pool = ComponentPoolStatusTracker(component_ids={10 + b for b in range(nb)}, component_status_sender=ch.new_sender(),
+                                      max_data_age=timedelta(seconds=MAXAGE), max_blocking_duration=timedelta(seconds=MAXBLOCK),
+                                      component_status_tracker_type=_Tracker)
     await asyncio.sleep(0.01)
     bmsg, imsg = _msgs()
     import dataclasses
